@@ -7,6 +7,7 @@ package main
 // reached by the query" can be enumerated.
 
 import (
+	"io"
 	"sync/atomic"
 	"context"
 	"errors"
@@ -86,7 +87,11 @@ type faultCase struct {
 var errorSites = []string{"querier", "select", "ss.next", "ss.err", "it.seek", "it.next"}
 var allSites = []string{"querier", "select", "ss.next", "ss.at", "ss.err", "labels", "iterator", "it.seek", "it.next", "it.at", "it.err", "close"}
 
+// the stores of the remote engines created by the last newEngines(dist = true, ...)
+var lastRemoteStores []*Store
+
 func newEngines(dist bool, data []SeriesData, st *Store) (queryMaker, func()) {
+	lastRemoteStores = nil
 	opts := engine.Opts{EngineOpts: promOpts(EngineCfg{})}
 	if !dist {
 		return engine.New(opts), func() {}
@@ -98,6 +103,9 @@ func newEngines(dist bool, data []SeriesData, st *Store) (queryMaker, func()) {
 	s1, s2 := NewStore(data[:half]), NewStore(data[half:])
 	s1.Faults, s2.Faults = st.Faults, st.Faults
 	s1.Cancel, s2.Cancel = st.Cancel, st.Cancel
+	// one remote engine's storage fails a select at once while the other's is slow
+	s1.FailSelectName, s2.SlowSelectName, s2.SlowSelectDelay = st.FailSelectName, st.SlowSelectName, st.SlowSelectDelay
+	lastRemoteStores = []*Store{s1, s2}
 	remotes := []api.RemoteEngine{engine.NewLocalEngine(opts, s1), engine.NewLocalEngine(opts, s2)}
 	return engine.NewDistributedEngine(opts, api.NewStaticEndpoints(remotes)), func() {
 		st.mu.Lock()
@@ -191,6 +199,20 @@ func oracleFault(seed int64, id int, mode string) CaseResult {
 		fc.Query = pick(r, []string{"bar + on (a) group_right foo", "sum(bar) + on () group_right foo", "foo * on (a, b) bar", "sum by (a) (foo) / on (a) sum by (a) (bar)"})
 		fc.Site = pick(r, []string{"it.seek", "it.next"})
 	}
+	// one operand's select fails at once while the other's is still running (lifecycle only):
+	// every querier must be closed when Exec returns all the same
+	racing := mode == "lifecycle" && id%5 == 2
+	if racing {
+		fc.Instant = false
+		fc.Window = faultWindow
+		fc.Kind = "none"
+		fc.Dist = id%10 == 2
+		if fc.Dist {
+			fc.Query = pick(r, []string{"foo", "sum by (a) (foo)", "abs(foo)"})
+		} else {
+			fc.Query = pick(r, []string{"foo + bar", "foo * on (a) group_left bar", "sum(foo) / on () sum(bar)", "bar - on (a, b) foo"})
+		}
+	}
 	runtime.GOMAXPROCS(fc.Procs)
 	data := faultData(fc.Window)
 	res := CaseResult{Query: fc.Query, Window: fc.Window, Procs: fc.Procs}
@@ -199,20 +221,34 @@ func oracleFault(seed int64, id int, mode string) CaseResult {
 		res.Skipped = "rejected at creation"
 		return res
 	}
-	if counts[fc.Site] == 0 {
+	if counts[fc.Site] == 0 && !racing {
 		res.Skipped = "site " + fc.Site + " not reached"
 		return res
+	}
+	if racing {
+		counts[fc.Site] = 1
 	}
 	fc.N = 1 + r.Int63n(counts[fc.Site])
 	if slow {
 		fc.N = counts[fc.Site]/2 + r.Int63n(counts[fc.Site]/2+1) // in the later batches
 	}
 	res.Tags = []string{fmt.Sprintf("fault=%s@%s#%d/%d", fc.Kind, fc.Site, fc.N, counts[fc.Site])}
+	if racing {
+		res.Tags = []string{fmt.Sprintf("fault=one select fails at once, another is slow; dist=%v", fc.Dist)}
+	}
 	res.NonTriv = true
 
 	st := NewStore(data)
 	if slow {
 		st.SlowName, st.SlowDelay = "bar", 300*time.Microsecond
+	}
+	if racing {
+		st.SlowSelectName, st.SlowSelectDelay = "foo", 40*time.Millisecond
+		if fc.Dist {
+			st.FailSelectName = "foo" // the first remote engine fails, the second is slow
+		} else {
+			st.FailSelectName = "bar"
+		}
 	}
 	st.WithCanaries()
 	snap := st.Snapshot()
@@ -223,7 +259,8 @@ func oracleFault(seed int64, id int, mode string) CaseResult {
 	if fc.Kind != "none" {
 		st.Faults = []Fault{{Kind: fc.Kind, Site: fc.Site, N: fc.N}}
 	}
-	eng, _ := newEngines(false, data, st)
+	eng, _ := newEngines(racing && fc.Dist, data, st)
+	remoteStores := lastRemoteStores
 	base := goroutineCount()
 
 	// no storage interaction at creation
@@ -254,6 +291,12 @@ func oracleFault(seed int64, id int, mode string) CaseResult {
 		perID[k] = v
 	}
 	st.mu.Unlock()
+	for _, rs := range remoteStores {
+		rs.mu.Lock()
+		opensAtReturn += rs.Opens
+		closesAtReturn += rs.Closes
+		rs.mu.Unlock()
+	}
 	q.Close()
 	fired := st.Fired() > 0
 	res.Impl = trunc(out.String(), 300)
@@ -285,7 +328,7 @@ func oracleFault(seed int64, id int, mode string) CaseResult {
 		if d := st.DiffSnapshot(snap); d != "" && res.Fail == "" {
 			res.Fail = "storage-owned data modified: " + d
 		}
-		if fc.Kind == "none" {
+		if fc.Kind == "none" && !racing {
 			if d := diffSelf(out, clean); d != "" && res.Fail == "" {
 				res.Fail = "result over canary-padded label slices differs from the clean run: " + d
 			}
@@ -339,6 +382,23 @@ func oracleExtreme(seed int64, id int) CaseResult {
 	c := &Case{ID: id, Seed: seed, Query: qs, Window: w, Data: data, Procs: runtime.GOMAXPROCS(0)}
 	res := oracleRef(c)
 	res.Query, res.Window = qs, w
+	if res.Fail == "" && id%2 == 1 {
+		// an engine without fallback that explains its plans, on a query it cannot plan: creation
+		// must answer with an error, not with a panic
+		func() {
+			defer func() {
+				if e := recover(); e != nil {
+					res.Fail = fmt.Sprintf("panic escaped the creation of a query: %v", e)
+				}
+			}()
+			eng := engine.New(engine.Opts{EngineOpts: promOpts(EngineCfg{}), DisableFallback: true, DebugWriter: io.Discard})
+			for _, uq := range []string{"sort(foo)", "absent(nometric)", "foo and bar", "sum(label_replace(foo, \"x\", \"$1\", \"a\", \"(.*)\"))"} {
+				if q, err := makeQuery(eng, NewStore(data), EngineCfg{}, uq, w); err == nil {
+					q.Close()
+				}
+			}
+		}()
+	}
 	if res.Fail == "" && id%2 == 0 {
 		// the same query through a distributed engine (default optimizers, two partitions): planning
 		// and execution must not panic either
@@ -596,9 +656,10 @@ func oracleHist(seed int64, id int) CaseResult {
 	st := NewStore(data)
 	dist := id%5 == 0
 	eng, _ := newEngines(false, data, st)
+	// the set of remote engines may change while the distributed engine lives
+	endpoints := &dynEndpoints{engines: []api.RemoteEngine{engine.NewLocalEngine(engine.Opts{EngineOpts: promOpts(EngineCfg{})}, st)}}
 	if dist {
-		eng = engine.NewDistributedEngine(engine.Opts{EngineOpts: promOpts(EngineCfg{})},
-			api.NewStaticEndpoints([]api.RemoteEngine{engine.NewLocalEngine(engine.Opts{EngineOpts: promOpts(EngineCfg{})}, st)}))
+		eng = engine.NewDistributedEngine(engine.Opts{EngineOpts: promOpts(EngineCfg{})}, endpoints)
 	}
 	res := CaseResult{Query: "history", Window: w, NonTriv: true}
 	type kept struct {
@@ -621,6 +682,11 @@ func oracleHist(seed int64, id int) CaseResult {
 				tails[i] = tails[i][1:]
 			}
 			ops = append(ops, fmt.Sprintf("append(%d)", i))
+		case k == 3 && dist && len(endpoints.Engines()) < 3: // another remote engine joins, with series of its own
+			extra := NewStore([]SeriesData{{Labels: labels.FromStrings("__name__", "foo", "a", fmt.Sprintf("e%d", step), "b", "1", "le", "9", "zone", "0"),
+				Samples: []Sample{{T: w.Start - 5000, V: float64(100 + step)}, {T: w.Start + 400_000, V: float64(200 + step)}}}})
+			endpoints.add(engine.NewLocalEngine(engine.Opts{EngineOpts: promOpts(EngineCfg{})}, extra))
+			ops = append(ops, "new-remote-engine")
 		case k == 2: // new series
 			st.Series = append(st.Series, SeriesData{Labels: labels.FromStrings("__name__", "foo", "a", fmt.Sprintf("n%d", step), "b", "1"),
 				Samples: []Sample{{T: w.Start + int64(step)*1000, V: float64(step)}}})
@@ -639,7 +705,7 @@ func oracleHist(seed int64, id int) CaseResult {
 			}
 			ops = append(ops, fmt.Sprintf("%s [lookback=%v]", qs, qcfg.QueryLookback))
 			q, err := makeQuery(eng, st, qcfg, qs, win)
-			fq, ferr := makeQuery(newFresh(dist, st), st, qcfg, qs, win)
+			fq, ferr := makeQuery(newFresh(dist, endpoints.Engines()), st, qcfg, qs, win)
 			if (err != nil) != (ferr != nil) {
 				res.Fail = fmt.Sprintf("step %d %q: creation differs from a fresh engine (%v vs %v)", step, qs, err, ferr)
 				res.Ref = strings.Join(ops, " ; ")
@@ -692,12 +758,30 @@ func oracleHist(seed int64, id int) CaseResult {
 	return res
 }
 
-func newFresh(dist bool, st *Store) queryMaker {
+func newFresh(dist bool, remotes []api.RemoteEngine) queryMaker {
 	opts := engine.Opts{EngineOpts: promOpts(EngineCfg{})}
 	if dist {
-		return engine.NewDistributedEngine(opts, api.NewStaticEndpoints([]api.RemoteEngine{engine.NewLocalEngine(opts, st)}))
+		return engine.NewDistributedEngine(opts, api.NewStaticEndpoints(remotes))
 	}
 	return engine.New(opts)
+}
+
+// dynEndpoints: remote endpoints whose set of engines grows over time
+type dynEndpoints struct {
+	mu      sync.Mutex
+	engines []api.RemoteEngine
+}
+
+func (d *dynEndpoints) Engines() []api.RemoteEngine {
+	d.mu.Lock()
+	defer d.mu.Unlock()
+	return append([]api.RemoteEngine(nil), d.engines...)
+}
+
+func (d *dynEndpoints) add(e api.RemoteEngine) {
+	d.mu.Lock()
+	d.engines = append(d.engines, e)
+	d.mu.Unlock()
 }
 
 var _ = sort.Strings
